@@ -408,14 +408,7 @@ def execute(scenario, chooser):
         st['net'] = net
         armed = st.setdefault('armed', {})
 
-        class RecClock(clock_mod.Clock):
-            def start(self):
-                me = core.me()
-                if me is not None and me.role == 'job' and \
-                        me.name not in armed:
-                    armed[me.name] = sim.evno
-                super().start()
-        injection.bind(RecClock).to(i_lib.Clock)
+        st['armed_ref'] = armed
         wa = WebApp()
         jc = world.job_control_of(wa)
         main_job = RecJob('main')
@@ -581,8 +574,21 @@ def execute(scenario, chooser):
             st['rerun_done'] = not jc.has_jobs()
         sim.set_budget(0, '')
 
+    from bardolph.lib import clock as clock_mod_
+
+    def w_start(orig):
+        def start(self):
+            me = core.me()
+            armed = st.get('armed_ref')
+            if armed is not None and me is not None and \
+                    me.role == 'job' and me.name not in armed:
+                armed[me.name] = core.current().evno
+            orig(self)
+        return start
+
     start = sc['start']
-    with world.StdoutCapture():
+    with world.StdoutCapture(), world.Instrument(clock_mod_.Clock,
+                                                 {'start': w_start}):
         sim, out = world.run_sim(
             main, chooser, gran=sc['policy']['gran'], step_cap=300000,
             start_dt=datetime.datetime(2024, 3, 5, start[0], start[1],
